@@ -6,6 +6,7 @@ CONSTANTS
   Tier = "%s"
   CheckRefinement = TRUE
   TrimsAndScansParams = %s
+  ProducesFirst = %s
 INVARIANTS Check
 CHECK_DEADLOCK FALSE
 """
@@ -48,12 +49,13 @@ def sig_malformed_q(ev, mis):
 
 FAM = {
     "name": "nego",
-    "mc": {"quick": [("MC_Negotiation", MC % ("quick", "TRUE"), "MC_Negotiation-quick")],
-           "thorough": [("MC_Negotiation", MC % ("thorough", "TRUE"), "MC_Negotiation-thorough")]},
-    "mc_must_violate": {"quick": [("MC_Negotiation", MC % ("quick", "FALSE"), "MC_Negotiation-legacy",
-                                   "legacy Accept parser (media type not trimmed, only first parameter inspected)")],
-                        "thorough": [("MC_Negotiation", MC % ("quick", "FALSE"), "MC_Negotiation-legacy",
-                                      "legacy Accept parser")]},
+    "mc": {"quick": [("MC_Negotiation", MC % ("quick", "TRUE", "TRUE"), "MC_Negotiation-quick")],
+           "thorough": [("MC_Negotiation", MC % ("thorough", "TRUE", "TRUE"), "MC_Negotiation-thorough")]},
+    "mc_must_violate": {t: [("MC_Negotiation", MC % ("quick", "FALSE", "TRUE"), "MC_Negotiation-legacy",
+                             "legacy Accept parser (media type not trimmed, only first parameter inspected)"),
+                            ("MC_Negotiation", MC % ("quick", "TRUE", "FALSE"), "MC_Negotiation-legacy-fallbacks",
+                             "fall-backs of the entity writer in the old order (whole-header look-up and package default before Produces)")]
+                        for t in ("quick", "thorough")},
     "driver": "nego",
     "plans": plans,
     "replay_plan": lambda rp, run: [("replay", {"cases": [{"produces": rp["event"]["produces"], "registered": rp["event"]["registered"],
@@ -61,7 +63,7 @@ FAM = {
                                                            "accs2": [rp["event"].get("acc2", "")], "compact": rp["event"].get("compact", False), "preCT": rp["event"].get("preCT", "")}],
                                                 "random": 0, "reps": 12}, None, False)],
     "trace_module": "NegoTrace",
-    "trace_const": "CONSTANT TrimsAndScansParams = TRUE\n",
+    "trace_const": "CONSTANTS TrimsAndScansParams = TRUE\n  ProducesFirst = TRUE\n",
     "reg_names": ["line", "judged", "ranking", "memberOnly"],
     "eval_counter": "judged",
     "nontrivial_counter": "ranking",
@@ -71,11 +73,11 @@ FAM = {
             "WriteEntity, repeated 12 times. Non-trivial = judged writes with >= 2 Produces entries and >= 2 ranges "
             "(a ranking decision), counted by the trace spec.",
     "assumptions": ["optional whitespace is SP (HTAB not generated)",
-                    "Produces entries have a registered writer; media types are spelled in the case the route declares",
+                    "at least one Produces entry has a registered writer (the others need not); media types are spelled in the case the route declares",
                     "type wildcards (application/*) and q=0 are accepted under either reading",
                     "a malformed q-value leaves only membership to be judged"],
     "sample": lambda ev: ev if ev.get("e") == "nego" and ev.get("ran") == 1 else None,
-    "signatures": {"c05-malformed-q-substring": sig_malformed_q},
+    "signatures": {},
     "explanation": "MC_Negotiation is explored exhaustively by TLC (Layer A theorems, Layer B EntityWriter inside Layer A) and "
                    "every state is replayed on the real Response.WriteEntity; the legacy parser is a counter-model TLC must refute.",
 }
